@@ -620,6 +620,56 @@ fn identifiers(src: &str) -> Vec<String> {
     ids.into_iter().filter(|i| !KW.contains(&i.as_str())).collect()
 }
 
+/// Large programs: more top-level variables, functions and constants than any shipped fixture
+/// has (fixed-size windows and tables in the code generators: 32 global slots in the WASM memory
+/// layout, register numbers, constant pools).
+pub fn gen_bigprog(rng: &mut Rng) -> String {
+    let mut words: Vec<&str> = WORDS.to_vec();
+    rng.shuffle(&mut words);
+    let n_glob = rng.range(33, 64) as usize;
+    let n_fn = *rng.pick(&[3usize, 12, 40, 70]);
+    let mut s = String::new();
+    for i in 0..n_glob {
+        s.push_str(&format!("let {}_{i} = {}\n", words[i % words.len()], crate::util::lit((i as f64) * 0.5 + rng.range(1, 8) as f64 * 0.125)));
+    }
+    for j in 0..n_fn {
+        let a = rng.below(n_glob as u64) as usize;
+        let b = rng.below(n_glob as u64) as usize;
+        s.push_str(&format!(
+            "fn fb{j}(x){{\n  x * {} + {}_{a} - {}_{b}\n}}\n",
+            crate::util::lit(1.0 + j as f64 * 0.015625),
+            words[a % words.len()],
+            words[b % words.len()]
+        ));
+    }
+    s.push_str("fn dsp(){\n  let t = now * 0.25\n");
+    let mut terms = vec![];
+    for i in 0..n_glob {
+        terms.push(format!("{}_{i}", words[i % words.len()]));
+    }
+    for j in 0..n_fn {
+        terms.push(format!("fb{j}(t)"));
+    }
+    // sums of at most eight terms per `let` keep the register pressure of dsp low
+    let mut acc = vec![];
+    for (k, chunk) in terms.chunks(8).enumerate() {
+        s.push_str(&format!("  let s{k} = {}\n", chunk.join(" + ")));
+        acc.push(format!("s{k}"));
+    }
+    let mut level = 0;
+    while acc.len() > 1 {
+        let mut next = vec![];
+        for (k, chunk) in acc.chunks(8).enumerate() {
+            s.push_str(&format!("  let q{level}_{k} = {}\n", chunk.join(" + ")));
+            next.push(format!("q{level}_{k}"));
+        }
+        acc = next;
+        level += 1;
+    }
+    s.push_str(&format!("  {}\n}}\n", acc[0]));
+    s
+}
+
 /// A history program that interns the target's identifiers in a shuffled order.
 pub fn permuting_history(rng: &mut Rng, target_src: &str) -> String {
     let mut ids = identifiers(target_src);
@@ -730,7 +780,8 @@ pub fn gen_c15(seed: u64, corpus: &[String]) -> DetRun {
     let root = Rng::new(seed);
     let mut r_cfg = root.sub("swarm");
     let mut r = root.sub("workload");
-    let target = match r_cfg.below(14) {
+    let target = match r_cfg.below(15) {
+        14 => Src::Text(gen_bigprog(&mut r)),
         12..=13 => gen_project(&mut r),
         10..=11 => Src::Text(gen_nameprog(&mut r)),
         0..=3 => Src::Text(gen_idprog(&mut r)),
